@@ -13,6 +13,14 @@ Oracle (from the statement):
                                or need_left_unique  and some left  key tuple repeats
   otherwise the result is identical (names, values, dtypes) to the expect='many_to_many' result.
 The default is read from the signature (inspect) and must behave exactly as that value.
+
+Additional input families (same oracle; the failure key gets a suffix naming the family):
+  * hash-colliding keys: int keys that differ but have equal Python hashes (-1 / -2, 0 / 2**61-1),
+    alone and as components of a two-column key - such keys are UNIQUE, so no uniqueness
+    expectation may fail because of them (suffix ':hash-colliding-keys');
+  * filtered-empty sides: a zero-row left (right) table that still has its typed columns, built by
+    filtering every row out of a one-row table (all-False mask, [0:0] slice), against every key
+    sequence - in particular duplicate keys - on the other side (suffix ':filtered-empty-side').
 """
 import inspect
 
@@ -59,6 +67,47 @@ def cases(tier, seed):
                         labels = labels + INVALID_MORE
                     for label in labels:
                         yield {'op': kind, 'expect': label, 'kind': kd, 'lk': lk, 'rk': rk}
+    yield from extra_cases(tier)
+
+
+def _all_seqs(pool, hi):
+    return [list(c) for n in range(0, hi + 1) for c in itertools.product(pool, repeat=n)]
+
+
+def extra_cases(tier):
+    labels = VALID + ['default'] + INVALID_MAIN
+    # ---- keys that differ but collide in hash: single key ----
+    hi = 3 if tier == 'quick' else 4
+    for kd in HC_KINDS:
+        pool = [0, 1] if tier == 'quick' else [0, 1, None]
+        seqs_ = _all_seqs(pool, hi if len(pool) == 2 else 3)
+        for lk in seqs_:
+            for rk in seqs_:
+                for kind in JOINS:
+                    for label in labels:
+                        yield {'op': kind, 'expect': label, 'kind': kd, 'lk': lk, 'rk': rk, 'family': 'hash-colliding-keys'}
+    # ---- ... and as components of a composite key ----
+    comp = [(['ihc1', 'ihc2'], [[0, 0], [1, 0], [0, 1]], 2)] if tier == 'quick' else \
+           [(['ihc1', 'ihc2'], [[0, 0], [1, 0], [0, 1], [1, 1]], 3), (['ihc2', 'str'], [[0, 0], [1, 0], [0, 1]], 3)]
+    for kinds, pool, hi2 in comp:
+        seqs_ = [[list(k) for k in c] for n in range(0, hi2 + 1) for c in itertools.product(pool, repeat=n)]
+        for lk in seqs_:
+            for rk in seqs_:
+                for kind in JOINS:
+                    for label in labels:
+                        yield {'op': kind, 'expect': label, 'kind': '+'.join(kinds), 'kinds': kinds, 'lk': lk, 'rk': rk,
+                               'family': 'hash-colliding-keys'}
+    # ---- zero-row side that still has (typed) columns, every key sequence on the other side ----
+    blocks = [('int', [0, 1, None], 3)] if tier == 'quick' else [('int', [0, 1, None], 4), ('str', [0, 1, None], 3), ('ihc1', [0, 1, None], 3)]
+    for kd, pool, hi3 in blocks:
+        seqs_ = _all_seqs(pool, hi3)
+        pairs = [([], rk) for rk in seqs_] + [(lk, []) for lk in seqs_ if lk]
+        for lk, rk in pairs:
+            for ector in ('mask', 'slice'):
+                for kind in JOINS:
+                    for label in labels + (INVALID_MORE if not lk and not rk else []):
+                        yield {'op': kind, 'expect': label, 'kind': kd, 'lk': lk, 'rk': rk, 'empty_ctor': ector,
+                               'family': 'filtered-empty-side'}
 
 
 _LAST = [None, None, None]      # (pair tag, JoinSetup, snapshot) of the previous case
@@ -68,11 +117,16 @@ def _setup(case):
     """Tables for a case.  Consecutive cases share the key pair (only join kind / expect change),
     so the previous pair's tables are reused as long as their view() is still what it was when they
     were built (joins must not modify their operands - C09/C10 check that on every call)."""
-    tag = (case['kind'], tuple(case['lk']), tuple(case['rk']))
+    tag = (case['kind'], repr(case['lk']), repr(case['rk']), case.get('empty_ctor'))
     if _LAST[0] == tag and _LAST[1].snapshot() == _LAST[2]:
         return _LAST[1]
-    c = {'kinds': [case['kind']], 'lk': [[k] for k in case['lk']], 'rk': [[k] for k in case['rk']],
-         'mode': 'name', 'names': 'same', 'pl': 1, 'pr': 1, 'bare': True}
+    if 'kinds' in case:       # composite key: lk / rk hold one pattern list per row
+        c = {'kinds': list(case['kinds']), 'lk': [list(k) for k in case['lk']], 'rk': [list(k) for k in case['rk']]}
+    else:
+        c = {'kinds': [case['kind']], 'lk': [[k] for k in case['lk']], 'rk': [[k] for k in case['rk']]}
+    c.update({'mode': 'name', 'names': 'same', 'pl': 1, 'pr': 1, 'bare': True})
+    if case.get('empty_ctor'):
+        c['empty_ctor'] = case['empty_ctor']
     s = JoinSetup(c)
     _LAST[:] = [tag, s, s.snapshot()]
     return s
@@ -95,7 +149,10 @@ def evaluate(case):
     cell = cell_name(ldup, rdup)
     # key = decision-table cell (join kind, which side repeats, expect); never the concrete keys
     key = f'{PID}:{kind}:{cell}-{label if label in VALID + ["default"] else "invalid"}-expect'
+    if case.get('family'):
+        key += ':' + case['family']
     descr = (f"{kind}(left keys={case['lk']}, right keys={case['rk']}, kind={case['kind']}, "
+             + (f"zero-row sides built by filtering ({case['empty_ctor']}), " if case.get('empty_ctor') else '')
              + (f'expect={value!r})' if passed else f'expect omitted -> signature default {value!r})'))
     try:
         s = _setup(case)
@@ -155,7 +212,8 @@ def nontrivial(case):
     dup_matched_l = any(lk.count(k) > 1 and k in rk for k in lk)
     dup_matched_r = any(rk.count(k) > 1 and k in lk for k in rk)
     return (case['op'], case['expect'], case['kind'], ldup, rdup, ln, rn,
-            dup_unmatched_l, dup_unmatched_r, dup_matched_l, dup_matched_r, len(lk) == 0, len(rk) == 0)
+            dup_unmatched_l, dup_unmatched_r, dup_matched_l, dup_matched_r, len(lk) == 0, len(rk) == 0,
+            case.get('family'), case.get('empty_ctor'))
 
 
 def bound(tier):
@@ -166,7 +224,17 @@ def bound(tier):
              {'kind': 'int', 'key_values': '{None,0,1}', 'max_left_rows': 4, 'max_right_rows': 3},
              {'kind': 'int', 'key_values': '{None,0,1}', 'max_left_rows': 3, 'max_right_rows': 4},
              {'kind': 'str', 'key_values': "{None,'a','b'}", 'max_left_rows': 3, 'max_right_rows': 3}]
-    return {'key_sequences': b, 'joins': JOINS,
+    if tier == 'quick':
+        x = [{'family': 'hash-colliding-keys', 'kinds': ['ihc1 {-1,-2}', 'ihc2 {0,2**61-1}'], 'max_left_rows': 3, 'max_right_rows': 3},
+             {'family': 'hash-colliding-keys', 'kinds': 'ihc1+ihc2', 'key_tuples': 3, 'max_left_rows': 2, 'max_right_rows': 2},
+             {'family': 'filtered-empty-side', 'kind': 'int', 'key_values': '{None,0,1}', 'other_side_max_rows': 3,
+              'zero_row_ctor': ['mask', 'slice']}]
+    else:
+        x = [{'family': 'hash-colliding-keys', 'kinds': ['ihc1', 'ihc2'], 'key_values': '2 colliding + None', 'max_left_rows': 3, 'max_right_rows': 3},
+             {'family': 'hash-colliding-keys', 'kinds': ['ihc1+ihc2 (4 tuples)', 'ihc2+str (3 tuples)'], 'max_left_rows': 3, 'max_right_rows': 3},
+             {'family': 'filtered-empty-side', 'kinds': ['int (<=4 rows)', 'str (<=3)', 'ihc1 (<=3)'], 'key_values': '{None,0,1}',
+              'zero_row_ctor': ['mask', 'slice']}]
+    return {'key_sequences': b, 'extra_families': x, 'joins': JOINS,
             'expect': VALID + ['<omitted>'] + INVALID_MAIN + ['(every 7th pair in quick, every 5th in thorough:)'] + INVALID_MORE}
 
 
@@ -174,6 +242,7 @@ if __name__ == '__main__':
     main(PID, cases, evaluate,
          rule='full decision table join kind x expect (4 valid, omitted, invalid values) x all ordered key sequences per side '
               '(hence all key multisets, in every order) of the stated size: raises SerifValueError iff invalid expect or a '
-              'required uniqueness fails; otherwise view(result) == view(many_to_many result). distinct = distinct '
+              'required uniqueness fails; otherwise view(result) == view(many_to_many result); plus the hash-colliding-key and '
+              'filtered-zero-row-side families of `bound.extra_families` over the same table. distinct = distinct '
               '(join, expect, kind, left-dup, right-dup, None-only dups, dup among matched / unmatched rows per side, empty sides)',
          bound=bound, nontrivial=nontrivial)
